@@ -101,6 +101,7 @@ class Machine:
         self.cpu_obj = Obj('cpu', '__cpu_model', 16)
         self.trace_names = set()
         self.trace = []
+        self.trace_cb = None
         self.assumed = set()     # data-dependent sanity checks of table contents assumed to pass (abort() on the other side)
         if not ASM_MODELS and lib.meta.get('asm'):
             from .asm import load_models
@@ -396,17 +397,23 @@ class Machine:
     def call(self, f, args, loc=None):
         if len(self.stack) > 200:
             raise Unsupported('call depth exceeded in ' + f.name)
-        if self.trace_names and f.name in self.trace_names:
+        traced = self.trace_names and f.name in self.trace_names
+        if traced:
             self.trace.append((f.name, tuple(args), tuple(self.stack)))
+            if self.trace_cb is not None:
+                self.trace_cb(self, 'enter', f.name, args)
         t = self.trusted.get(f.name)
         if t is not None:
             return t(self, f, args, loc)
         fr = Frame(f, args, len(self.stack))
         self.stack.append(f.name)
         try:
-            return self.run_function(fr)
+            r = self.run_function(fr)
         finally:
             self.stack.pop()
+        if traced and self.trace_cb is not None:
+            self.trace_cb(self, 'exit', f.name, args)
+        return r
 
     def call_external(self, name, args, i, fr):
         loc = i.loc
